@@ -22,7 +22,7 @@ RULE = ('(a) registry histories: generated sequences of clock advances, is_alive
         'operations (call_and_wait, run, as_completed incl. failing tasks) on the fake transport must leave no worker acquired; '
         'non-trivial = a late heartbeat after an unregister / two pools touching the same worker with >= 1 preemption / a failing '
         'task; distinct = distinct canonical case JSON'
-        '; also: other workers joining the registry (1..130), life/death notices through the real heartbeat handler with several kinds of truth values, a worker dying while acquired, early-closed as_completed, pools built over re-timed worker objects')
+        '; also: further client handles made for the same address (new_client), other workers joining the registry (1..130), life/death notices through the real heartbeat handler with several kinds of truth values, a worker dying while acquired, early-closed as_completed, pools built over re-timed worker objects')
 ASSUMPTIONS = [
     'harness clock replaces time in courier_utils so heartbeat staleness is driven by the generated history, not by machine load',
     'same scheduler trusted base as C04 for the concurrent parts; the transport is the in-process fake (vlib/fake_courier)',
@@ -80,6 +80,7 @@ def run_registry(case):
   hb = None                  # the pending entry of the latest heartbeat ping
   dead_since_unregister = False
   late_after_dead = False
+  extra = []
 
   def m_get():
     return 0.0 if last in ('unknown', 'DEAD') else last
@@ -112,6 +113,10 @@ def run_registry(case):
       # this must not change what is recorded for this worker
       for j in range(op[1]):
         reg.register(f'{addr}_other{next(_uid)}', Clock.now)
+    elif k == 'new_client':
+      # another handle for the same address is made (a second pool, a re-made worker): by itself no sign of life
+      extra.append(_guard(lambda: courier_utils.CourierClient(addr, heartbeat_threshold_secs=T, call_timeout=1000 + next(_uid)), w))
+      check(reg.get(addr) == m_get(), 'recorded-heartbeat-differs-from-model', f'{w}: registry {reg.get(addr)} vs model {m_get()}')
     elif k == 'call':
       client.call(b'x')
       pend.append([Clock.now, False, False])
@@ -160,7 +165,7 @@ def strat_registry(tier):
       st.tuples(st.just('advance'), st.sampled_from([1.0, 20.0, 40.0, 99.0, 101.0, 250.0])).map(list),
       st.tuples(st.just('register'), st.sampled_from([0.0, -50.0, -150.0, 10.0])).map(list),
       st.tuples(st.just('refresh'), st.sampled_from([0.0, -50.0, -150.0, 10.0])).map(list),
-      st.just(['unregister']), st.just(['call']), st.just(['is_alive']), st.just(['is_alive']),
+      st.just(['unregister']), st.just(['call']), st.just(['is_alive']), st.just(['is_alive']), st.just(['new_client']),
       st.tuples(st.just('others_join'), st.sampled_from([1, 1, 2, 130])).map(list),
       st.tuples(st.just('release'), st.integers(0, 3), st.booleans()).map(list),
       st.tuples(st.just('release'), st.integers(0, 3), st.just(True)).map(list),
@@ -172,7 +177,8 @@ def strat_registry(tier):
       # the worker dies, many others join meanwhile, then a stale sign of life of the dead worker arrives
       i = draw(st.integers(0, len(ops)))
       late = draw(st.sampled_from([[['refresh', 0.0]], [['release', 0, True]], [['refresh', -50.0]]]))
-      ops[i:i] = [['call'], ['unregister'], ['others_join', draw(st.sampled_from([1, 127, 130]))]] + late + [['is_alive']]
+      ops[i:i] = [['call'], ['unregister'], draw(st.sampled_from([['others_join', 1], ['others_join', 127], ['others_join', 130],
+                                                                  ['new_client']]))] + late + [['is_alive']]
     return {'ops': ops}
   return s()
 
